@@ -180,6 +180,7 @@ def run(tier, seed):
             lut_r = reg.lut if route == "add_symbols" else LUT
             want_r = expected_value(k, c, lut_r)
             ok = math.isclose(obj.base_value, want_r, rel_tol=1e-14) and obj.base_offset == lut_r[c][2] and obj.dimensions == lut_r[c][1]
+            ur = None
             if route == "add_symbols":
                 ok = ok and obj.registry is reg
                 ur = unit_or_err(n, reg)
@@ -189,9 +190,10 @@ def run(tier, seed):
                 ok = False
             if not ok:
                 lutname = "reg.lut" if route == "add_symbols" else "LUT"
-                chk.fail(f"attr-mismatch|{route}|{sh}", f"{route} attribute {n!r} = ({obj.base_value!r}, {obj.base_offset!r}) is not the documented 10^{k} x {c} = {want_r!r}",
+                chk.fail(f"attr-mismatch|{route}|{sh}", f"{route} attribute {n!r} = ({obj.base_value!r}, {obj.base_offset!r}) is not the documented 10^{k} x {c} = {want_r!r}, or differs from the unit string, or belongs to another registry",
                          {"python": snippet(get + f"assert math.isclose(u.base_value, {want_r!r}, rel_tol=1e-14) and u.base_offset == {lutname}[{c!r}][2] and u.dimensions == {lutname}[{c!r}][1], (u.base_value, u.base_offset)\n"
-                                            + (f"s = Unit({n!r}); assert s.base_value == u.base_value and s.base_offset == u.base_offset and s.dimensions == u.dimensions\n" if route != "add_symbols" and not isinstance(u, Exception) else ""))})
+                                            + (f"s = Unit({n!r}); assert s.base_value == u.base_value and s.base_offset == u.base_offset and s.dimensions == u.dimensions\n" if route != "add_symbols" and not isinstance(u, Exception) else "")
+                                            + (f"s = Unit({n!r}, registry=reg); assert s.base_value == u.base_value and s.base_offset == u.base_offset and s.dimensions == u.dimensions\n" if route == "add_symbols" and not isinstance(ur, Exception) else ""))})
 
     # attributes that are not listed names must still agree with their own string route
     for route, table in (("unit_symbols", us_attrs), ("top-level", top_attrs), ("add_symbols", ns)):
